@@ -228,6 +228,15 @@ def recovery_rules(chk, prog, r):
             wp = core.must_pass(r, [tgt], nexts, through_nodes=stores, after_from=False)
             chk.ob("R4.restart", fn, "the new worker is stored at threads[id]", wp is None,
                    "the restarted worker is stored under another index (or not at all): a later panic of it joins/replaces the wrong thread", path=wp)
+            # the handle that is joined is the dead worker's: once the replacement sits in threads[id], a take()+join() of that slot waits for
+            # the live replacement while the lock on the worker list is held
+            joins = [blk for blk, t in r.calls_to(JOIN)]
+            for sb in stores:
+                after = r.reachable(r.succs(sb), removed_nodes=set(nexts))
+                late = [j for j in joins if j in after]
+                chk.ob("R4.restart", fn, "the panicked worker is joined before its slot is given to the replacement", not late,
+                       "the join comes after threads[id] = <new worker>: it takes the replacement's handle and waits for a healthy worker while holding the "
+                       "worker-list lock (a second panic is never handled; drop blocks forever)", where=r.where(late[0]) if late else "")
 
 
 def isolation_rules(chk, prog):
@@ -301,6 +310,7 @@ def run(chk):
         chk.ob("R5.stop", st.path, "stop() queues Message::Shutdown behind the pending tasks", ok, "")
     join_rules(chk, prog, None)
     generation_rule(chk, prog)
+    threads_len_rule(chk, prog)
     _typing_witness(chk)
 
 def channel_close_sites(b):
@@ -314,6 +324,29 @@ def channel_close_sites(b):
         if t and t["k"] == "call" and core.call_matches(t, r"mem::(replace|take|drop|swap)$") and any("mpsc::Sender<humphrey::thread::pool::Message>" in a for a in t.get("arg_tys", [])):
             out.append(i)
     return out
+
+
+def threads_len_rule(chk, prog):
+    """R4.threads_len: the recovery thread addresses workers by id = index into the shared Vec<Thread>; nothing may shorten or reorder that
+    vector while a recovery thread can still run (it survives stop() and drop, detached): after `clear()` a late panic makes the recovery thread
+    itself die on an out-of-bounds index, and the tasks still queued are never run."""
+    SHRINK = r"Vec::<T, A>::(clear|truncate|pop|remove|swap_remove|drain|retain|retain_mut|dedup|dedup_by|dedup_by_key|split_off|insert|extract_if|splice)$|<impl \[T\]>::(reverse|swap|rotate_left|rotate_right|sort\w*)$"
+    n = 0
+    for p, b in sorted(prog.bodies.items()):
+        if not p.startswith("humphrey::thread::") and "ThreadPool" not in p:
+            continue
+        if "promoted" in p:
+            continue
+        for blk, t in b.calls():
+            tys = t.get("arg_tys") or []
+            if not tys or "humphrey::thread::pool::Thread>" not in tys[0] and "[humphrey::thread::pool::Thread]" not in tys[0]:
+                continue
+            n += 1
+            if core.call_matches(t, SHRINK):
+                chk.ob("R4.threads_len", p, f"the worker list is not shortened or reordered ({core.short(t['callee']).split('::')[-1]})", False,
+                       f"{core.short(t['callee'])} on the shared Vec<Thread>: worker ids are indices into it, and the detached recovery thread still uses them "
+                       "(out-of-bounds panic of the recovery thread on the next worker panic; queued tasks are then never run)", where=b.where(blk))
+    chk.floor("operations on the shared worker list", n, 3)
 
 
 def generation_rule(chk, prog):
